@@ -47,6 +47,7 @@ type Solver struct {
 	bin     string
 	args    []string
 	trace   io.Writer
+	ctx     *Ctx // the worker's term context, reset for every path
 }
 
 var solverTimeout = 60 * time.Second
